@@ -9,16 +9,38 @@ use crate::*;
 use sea_query::Value;
 
 pub struct X { pub b: B, /// when collecting: the values the statement binds, in the order the dialect's grammar meets them
-    pub bound: std::cell::RefCell<Option<Vec<String>>> }
+    pub bound: std::cell::RefCell<Option<Vec<String>>>,
+    /// a template whose values cannot be told without expanding it (numbered marks, surplus / missing values) was met
+    pub opaque_template: std::cell::Cell<bool> }
+
+/// the positional marks of a template outside quoted text (`??` is a literal mark), by a scan that shares nothing with the crate's tokenizer
+fn positional_marks(t: &str) -> usize {
+    let cs: Vec<char> = t.chars().collect();
+    let (mut i, mut n) = (0, 0);
+    while i < cs.len() {
+        let c = cs[i];
+        if c == '\'' || c == '"' || c == '`' || c == '[' {
+            let close = if c == '[' { ']' } else { c };
+            i += 1; let mut esc = false;
+            while i < cs.len() { let d = cs[i]; if !esc && d == close { i += 1; if c != '[' && i < cs.len() && cs[i] == close { i += 1; continue; } break; } esc = !esc && d == '\\'; i += 1; }
+            continue;
+        }
+        if c == '?' { if i + 1 < cs.len() && cs[i + 1] == '?' { i += 2; continue; } n += 1; }
+        i += 1;
+    }
+    n
+}
 
 pub fn render(b: B, q: &Query) -> String { X::new(b).q(q) }
 /// the reference rendering together with the values a parameterised rendering has to bind, in order (tags as `stmt::value_tag`)
-pub fn render_bound(b: B, q: &Query) -> (String, Vec<String>) { let x = X { b, bound: std::cell::RefCell::new(Some(Vec::new())) }; let s = x.q(q); let v = x.bound.borrow_mut().take().unwrap_or_default(); (s, v) }
+pub fn render_bound(b: B, q: &Query) -> (String, Vec<String>) { let (s, v, _) = render_bound_t(b, q); (s, v) }
+/// .. and whether a template was met whose values this renderer cannot tell (then the list is not to be compared)
+pub fn render_bound_t(b: B, q: &Query) -> (String, Vec<String>, bool) { let x = X { b, bound: std::cell::RefCell::new(Some(Vec::new())), opaque_template: std::cell::Cell::new(false) }; let s = x.q(q); let v = x.bound.borrow_mut().take().unwrap_or_default(); (s, v, x.opaque_template.get()) }
 pub fn cond_sql(b: B, c: &Cond) -> String { X::new(b).cond(c) }
 pub fn ex_sql(b: B, e: &Ex) -> String { X::new(b).ex(e) }
 
 impl X {
-    pub fn new(b: B) -> Self { X { b, bound: std::cell::RefCell::new(None) } }
+    pub fn new(b: B) -> Self { X { b, bound: std::cell::RefCell::new(None), opaque_template: std::cell::Cell::new(false) } }
     /// a value that is bound as a parameter (not a constant written into the text)
     fn bind(&self, v: &Val) -> String { if let Some(l) = self.bound.borrow_mut().as_mut() { l.push(crate::stmt::value_tag(&v.real)); } self.lit(v) }
     fn bind_raw(&self, v: Value) { if let Some(l) = self.bound.borrow_mut().as_mut() { l.push(crate::stmt::value_tag(&v)); } }
@@ -69,7 +91,12 @@ impl X {
             },
             Ex::Subq(o, q) => match o { Some(0) => format!("(EXISTS ({}))", self.q(q)), Some(1) => format!("ANY ({})", self.q(q)), Some(2) => format!("SOME ({})", self.q(q)), Some(_) => format!("ALL ({})", self.q(q)), None => format!("({})", self.q(q)) },
             Ex::Cust(s) => s.clone(),
-            Ex::CustW(t, _) => t.clone(),
+            // a template on a positional backend with exactly one supplied expression per mark: the i-th mark takes the i-th
+            // expression, so its values are bound in that order (the text is not expanded here; only the bound values are told)
+            Ex::CustW(t, args) => {
+                if self.b != B::Postgres && positional_marks(t) == args.len() { for a in args { let _ = self.ex(a); } } else { self.opaque_template.set(true); }
+                t.clone()
+            }
             Ex::Kw(k) => match k { Kw::Null => "NULL".into(), Kw::CurrentDate => "CURRENT_DATE".into(), Kw::CurrentTime => "CURRENT_TIME".into(), Kw::CurrentTimestamp => "CURRENT_TIMESTAMP".into(), Kw::Custom(s) => s.clone() },
             // an enum cast exists on Postgres only, as CAST(expr AS "type") (array types keep their [] outside the quotes)
             Ex::Enum(t, x) => if self.b == B::Postgres { match t.strip_suffix("[]") { Some(base) => format!("CAST({} AS {}[])", self.ex(x), self.qi(base)), None => format!("CAST({} AS {})", self.ex(x), self.qi(t)) } } else { self.ex(x) },
